@@ -51,12 +51,34 @@ pub fn synthetic(v: usize, kind: usize, seed: u64) -> QRCode {
 pub fn vals_of(qr: &QRCode) -> Vec<Vec<u32>> { pack_matrix(&qr_modules(qr), qr.size).0 }
 
 // ------------------------------------------------------------------ text (C16)
+/// What `QRCode::print` writes to the process' standard output (fd 1 redirected to a scratch file for the duration of the call)
+fn captured_print(qr: &QRCode) -> Option<String> {
+    use std::io::Write;
+    use std::os::unix::io::AsRawFd;
+    struct Restore(i32);
+    impl Drop for Restore { fn drop(&mut self) { let _ = std::io::stdout().flush(); unsafe { libc::dup2(self.0, 1); libc::close(self.0); } } }
+    let base = std::env::var("FQV_SCRATCH").map(std::path::PathBuf::from).unwrap_or_else(|_| std::env::temp_dir());
+    let path = base.join(format!("fqv_stdout_{}.txt", std::process::id()));
+    let f = std::fs::File::create(&path).ok()?;
+    let _ = std::io::stdout().flush();
+    {
+        let saved = unsafe { libc::dup(1) };
+        if saved < 0 { return None; }
+        let _restore = Restore(saved);
+        unsafe { libc::dup2(f.as_raw_fd(), 1); }
+        qr.print();
+    }
+    let out = std::fs::read_to_string(&path).ok();
+    let _ = std::fs::remove_file(&path);
+    out
+}
 pub fn text_event(id: u64, tag: &str, qr: &QRCode) -> Value {
     let q = qr.clone();
-    match guarded(30, move || q.to_str()) {
-        Ok(s) => {
+    match guarded(30, move || { let s = q.to_str(); let p = captured_print(&q); (s, p) }) {
+        Ok((s, p)) => {
             let lines: Vec<Vec<u32>> = s.split('\n').map(cps).collect();
-            json!({"ev": "Text", "id": id, "tag": tag, "size": qr.size, "vals": vals_of(qr), "kind": "Ok", "lines": lines})
+            let printed: Vec<Vec<u32>> = p.unwrap_or_else(|| "\u{0}capture failed".into()).split('\n').map(cps).collect();
+            json!({"ev": "Text", "id": id, "tag": tag, "size": qr.size, "vals": vals_of(qr), "kind": "Ok", "lines": lines, "printed": printed})
         }
         Err(k) => json!({"ev": "Text", "id": id, "tag": tag, "size": qr.size, "vals": vals_of(qr), "kind": k, "lines": []}),
     }
